@@ -32,6 +32,19 @@ Theorem C15_padding : forall (C V : Type) (o : kops C V) (A : V -> V) (n : nat) 
 Proof. exact @arnoldi_padding_lemma. Qed.
 Print Assumptions C15_padding.
 
+(* repaired variant (max_iters capped at n before the buffers are allocated; flag arnoldi_padding gone): same number of steps,
+   the pinned result is the repaired one padded with zeros, and the repaired buffers have min(max_iters,n)+1 / min(max_iters,n)
+   columns, so arnoldi_eigs' H[:-1] carries no zero padding.  Every theorem of this file holds for it (instance max_iters := min) *)
+Theorem C15_capped_variant : forall (C V : Type) (o : kops C V) (A : V -> V) (n : nat) (vs : list V) (max_iters : nat) (tol : C),
+  let cap := Nat.min max_iters n in
+  let fixed := arnoldi_batch_capped o A n vs max_iters tol in
+  let pinned := arnoldi_batch o A n vs max_iters tol in
+  fst pinned = fst fixed /\ Forall2 (Padded o cap (max_iters - cap)) (snd fixed) (snd pinned) /\
+  forall s, In s (snd fixed) -> length (aQ s) = cap + 1 /\ length (aH s) = cap /\
+                                 (forall j, j < cap -> length (nth j (aH s) []) = cap + 1).
+Proof. exact @arnoldi_capped_spec. Qed.
+Print Assumptions C15_capped_variant.
+
 (* exact arithmetic, inner-product space, any square operator A, any batch: for every k up to the number of steps taken,
    if the first k steps were regular (remainder non-zero, clipped normalisation inactive) then columns 0..k of Q are
    orthonormal (modified Gram-Schmidt) and A q_j = sum_{i<=j+1} H[i,j] q_i for j < k (Arnoldi relation, by construction);
